@@ -171,6 +171,7 @@ class Check:
         self.mir_stamp = None
         self.undecided = None
         self.unwinding = []
+        self.plans = []
 
     def load(self, want=('bin_off',)):
         dumps, stamp = ensure_mir(want)
@@ -214,6 +215,16 @@ class Check:
         except KeyError as e:
             self.obs.append(Ob(what, 'undecided', 'anchor_missing: %s' % e))
             return None
+
+    def replay_plan(self, ob):
+        for fn in self.plans:
+            try:
+                r = fn(ob)
+            except Exception as e:  # noqa
+                r = None
+            if r is not None:
+                return r
+        return None
 
     def add(self, label, status, detail='', finding=None, target=None):
         self.obs.append(Ob(label, status, detail, finding, target))
@@ -270,17 +281,25 @@ class Check:
                 continue
             violations.append(ob)
         confirmed = []
+        unconfirmed = []
         for ob in violations:
             verdict = 'unreplayed'
             rp = None
             if replayer is not None:
                 verdict, rp = replayer(self, ob)
             ob.replay = verdict
-            if verdict in ('confirmed', 'solver-only'):
+            hv = getattr(ob.finding, 'havoc', ()) if ob.finding is not None else ()
+            if verdict == 'confirmed' or (verdict == 'solver-only' and not hv):
                 confirmed.append((ob, rp))
+                ob.detail += ' [replay: %s]' % verdict
+            elif verdict == 'solver-only':
+                ob.status = 'unconfirmed'
+                ob.detail += ' [no native replay driver; path depends on havocked callees %s]' % (sorted(set(hv))[:5],)
+                unconfirmed.append((ob, rp))
             else:
                 ob.status = 'inconclusive'
                 ob.detail += ' [replay: %s]' % verdict
+                print('INCONCLUSIVE: property=%s site=%s solver counterexample did not reproduce natively (%s) file=%s' % (self.prop, ob.label, verdict, rp))
         for ln in known_lines:
             print(ln)
         self.write_evidence(len(confirmed))
@@ -289,7 +308,11 @@ class Check:
             print('  site: %s  (%s)' % (ob.label, ob.detail))
             if ob.finding is not None:
                 print('  input: %s' % json.dumps(ob.finding.inputs)[:400])
-        return 1 if confirmed else 0
+        for ob, rp in unconfirmed:
+            print('UNCONFIRMED: property=%s site=%s candidate=%s (solver counterexample, not natively replayable)' % (self.prop, ob.label, rp))
+        if confirmed:
+            return 1
+        return 2 if unconfirmed else 0
 
     def write_evidence(self, nviol):
         st = {'queries': 0, 'sat': 0, 'unsat': 0, 'unknown': 0, 'solver_s': 0.0, 'paths': 0, 'forks': 0}
